@@ -155,14 +155,15 @@ func (st Stream) HeaderReads() []bool {
 // ---------------------------------------------------------------- configuration
 
 type FeatSpec struct {
-	Kind  string `json:"kind"` // starttls, sasl, bind, custom
-	Space string `json:"space,omitempty"`
-	Local string `json:"local,omitempty"`
-	Nec   uint8  `json:"nec,omitempty"`
-	Proh  uint8  `json:"proh,omitempty"`
-	Neg   bool   `json:"neg,omitempty"`
-	LReq  bool   `json:"lreq,omitempty"`
-	LErr  bool   `json:"lerr,omitempty"`
+	Kind   string `json:"kind"` // starttls, sasl, bind, custom
+	Space  string `json:"space,omitempty"`
+	Local  string `json:"local,omitempty"`
+	Nec    uint8  `json:"nec,omitempty"`
+	Proh   uint8  `json:"proh,omitempty"`
+	Neg    bool   `json:"neg,omitempty"`
+	LReq   bool   `json:"lreq,omitempty"`
+	LErr   bool   `json:"lerr,omitempty"`   // List fails
+	LMessy bool   `json:"lmessy,omitempty"` // ... after it has written an unclosed start tag
 }
 
 func (f FeatSpec) Coq() string {
@@ -178,7 +179,7 @@ type SVal struct {
 	Mask    uint8  `json:"mask,omitempty"`
 	Restart bool   `json:"restart,omitempty"`
 	Err     bool   `json:"err,omitempty"`
-	More    bool   `json:"more,omitempty"`
+	More    bool   `json:"more,omitempty"` // step: more; list/parse: required
 	SErr    string `json:"serr,omitempty"` // "", authn, other
 }
 
@@ -194,13 +195,17 @@ func (v SVal) Coq() string {
 	case "bind":
 		e := map[string]string{"": "BOk", "stanza": "BStanza", "other": "BErr"}[v.SErr]
 		return "VBind " + e
+	case "list":
+		return fmt.Sprintf("VList %s %s", coqBool(v.More), coqBool(v.Err))
+	case "parse":
+		return fmt.Sprintf("VParse %s %s", coqBool(v.More), coqBool(v.Err))
 	}
 	panic("unknown sval kind " + v.K)
 }
 
 func (v SVal) IsErr() bool {
 	switch v.K {
-	case "out":
+	case "out", "list", "parse":
 		return v.Err
 	case "step", "bind":
 		return v.SErr != ""
